@@ -81,11 +81,15 @@ def generate(rng, tier, rep):
             T = worldcase.gen_test(rng, 0)
             T.pop('layer', None)
             kinds.append(T)
-        cases.append(mk(rng, kinds, (['--buffer'] if rng.random() < 0.75 else []) + rng.choice([[], ['-v'], ['-vv']])))
+        # (--xml wraps the formatter: what a failing test wrote must be shown all the same)
+        cases.append(mk(rng, kinds, (['--buffer'] if rng.random() < 0.75 else []) + rng.choice([[], ['-v'], ['-vv']])
+                        + (['--xml=xmlout'] if rng.random() < 0.2 else [])))
     for c in cases:
         if any(T.get('nested_run') for T in c['tests']):
             rep.count('a test runs the runner in-process (nested --buffer run)')
         rep.count('buffer=%s' % ('--buffer' in c['options']))
+        if '--xml=xmlout' in c['options']:
+            rep.count('with --xml')
         rep.count('tests=%d' % len(c['tests']))
     return cases
 
